@@ -6,7 +6,6 @@ EXTENDS WalletLedger, Json, IOUtils
 
 TreesJ == JsonDeserialize(IOEnv.TREES)
 
-TripleSet(s) == {<<s[i][1], s[i][2], s[i][3]>> : i \in 1..Len(s)}
 TreesC == TreesJ
 
 StateRec == [t |-> t, mem |-> mem, wTip |-> wTip, utxo |-> wUtxo, ev |-> wEv, ok |-> wOk]
